@@ -175,6 +175,12 @@ def scenarios():
     out['forced-switched'] = dict(script=lambda: [
         ev_state('silent-switch', blocks=forked(1, [('t6',)])), ev_forced_reorg(1),
         T, T, T, T, ev_state('longer', blocks=forked(1, [('t6',), ()])), T, T, T, T])
+    # a block arrives; while its notification is on its way the daemon switches to another block
+    # at the SAME height and the operator forces the reorganisation; the chain stays that high
+    out['forced-switch-during-notify'] = dict(mempool0=('t1',), script=lambda: [
+        ev_state('block(t1)', blocks=extended([('t1',)]), names=()), T, T,
+        ev_state('silent-switch', blocks=forked(1, [('t1', 't6')], over=extended([('t1',)])), names=()),
+        ev_forced_reorg(1), T, T, T, T])
     # S5: cache-pressure flush at an intermediate height while the daemon keeps advancing
     out['pressure-flush'] = dict(mempool0=('t6',), script=lambda: [
         ev_state('block(t6)', blocks=extended([('t6',)]), names=('t1',)),
